@@ -612,7 +612,7 @@ func TestVerif_C08(t *testing.T) {
 						out += "/left:" + strings.Join(left, ",")
 					}
 					r.Distinct(fmt.Sprintf("%s|%s|%s", sh.Format, sig, out))
-					if len(im.Path) == 1 && strings.HasPrefix(im.Path[0], "after-start#") {
+					if len(im.Path) == 1 && strings.HasPrefix(im.Path[0], "start#") {
 						r.Sample(map[string]any{"shape": sh.Name, "crash_at": im.Path, "state": sig, "outcome": out})
 					}
 				}
